@@ -1305,14 +1305,38 @@ impl<'a> Parser<'a> {
                 // Need lookahead to distinguish tuple from parenthesized expression
                 // Tuple: (a, b) or (a,)
                 // Paren: (a) or (expr)
-                if self.is_tuple_expr() {
-                    self.parse_tuple_expr();
+                if self.peek_ahead(1) == Some(TokenKind::ParenEnd) {
+                    // `()`: keep the historical lookahead-based shape
+                    if self.is_tuple_expr() {
+                        self.parse_tuple_expr();
+                    } else {
+                        self.emit_node(SyntaxKind::ParenExpr, |this| {
+                            this.bump(); // (
+                            this.parse_expr();
+                            this.expect(TokenKind::ParenEnd);
+                        });
+                    }
                 } else {
-                    self.emit_node(SyntaxKind::ParenExpr, |this| {
-                        this.bump(); // (
-                        this.parse_expr();
-                        this.expect(TokenKind::ParenEnd);
-                    });
+                    // Decide after the first element: a comma directly after it makes a
+                    // tuple. (Scanning ahead for a comma mistakes the commas of a lambda
+                    // parameter list, a record or an array inside the parentheses for
+                    // tuple separators.)
+                    let marker = self.builder.marker();
+                    self.bump(); // (
+                    self.parse_expr();
+                    if self.check(TokenKind::Comma) {
+                        self.builder.start_node_at(marker, SyntaxKind::TupleExpr);
+                        while self.check(TokenKind::Comma) {
+                            self.bump(); // ,
+                            if !self.check(TokenKind::ParenEnd) {
+                                self.parse_expr();
+                            }
+                        }
+                    } else {
+                        self.builder.start_node_at(marker, SyntaxKind::ParenExpr);
+                    }
+                    self.expect(TokenKind::ParenEnd);
+                    self.builder.finish_node();
                 }
             }
             Some(TokenKind::BlockBegin) => {
